@@ -759,6 +759,14 @@ func classifyDeath(repro map[string]any, log string) string {
 	if !ok {
 		return ""
 	}
+	// F04c: the optimizer EVALUATES a constant subexpression that recurses without end through a closure
+	// handed to a list method (every level gets a fresh value stack, so the 10 000-slot guard never
+	// fires): Generate itself dies of the runtime's fatal stack overflow. Narrow: the space family of these
+	// witnesses, a recursion through map/accept with constant arguments, death by stack overflow.
+	if fam, _ := repro["family"].(string); fam == famRunaway.name && spec.kind == "value" &&
+		(strings.Contains(src, ".map(") || strings.Contains(src, ".accept(")) && (log == "" || strings.Contains(log, "fatal error: stack overflow")) {
+		return findingF04c
+	}
 	return classifyShape(spec, src)
 }
 
